@@ -126,4 +126,37 @@ MUTANTS = [
       E("asm/inst_memory.go", "	src, err := fgen.irTypeValue(old.Src())\n	if err != nil {\n		return errors.WithStack(err)\n	}", "	src, err := fgen.irTypeValue(old.Src())\n	if err != nil {\n		panic(err)\n	}", nth=0)),
     M("nilmod-partial-module", "C05", ["NILMOD", "translate"],
       E("asm/translate.go", "	if err := gen.translateUseListOrders(); err != nil {\n		return nil, errors.WithStack(err)\n	}", "	if err := gen.translateUseListOrders(); err != nil {\n		return gen.m, errors.WithStack(err)\n	}")),
+    # ---- C12 / C20: determinism and order ----------------------------------------
+    M("det-drop-sort-types", ["C12", "C20"], ["DET-1", "addTypeDefsToModule"],
+      E("asm/translate.go", "	natsort.Strings(typeNames)\n", "")),
+    M("det-append-in-map-range", "C12", ["DET-1", "createGlobalEntities"],
+      E("asm/global.go", "		gen.new.globals[ident] = new\n	}\n	return nil\n}", "		gen.new.globals[ident] = new\n		if f, ok := new.(*ir.Func); ok {\n			gen.m.Funcs = append(gen.m.Funcs, f)\n		}\n	}\n	return nil\n}")),
+    M("det-counter-in-map-range", "C12", ["DET-1", "createAttrGroupDefs"],
+      E("asm/module.go", "	for id := range gen.old.attrGroupDefs {\n		new := &ir.AttrGroupDef{ID: id}", "	next := int64(0)\n	for id := range gen.old.attrGroupDefs {\n		id2 := next\n		next++\n		_ = id2\n		new := &ir.AttrGroupDef{ID: id}")),
+    M("det-package-level-cache", "C12", ["DET-2", "typeCache"],
+      E("asm/type.go", "// resolveTypeDefs resolves the type definitions of the given module.", "var typeCache = map[string]types.Type{}\n\n// resolveTypeDefs resolves the type definitions of the given module."),
+      E("asm/type.go", "		gen.new.typeDefs[typeName] = t\n", "		gen.new.typeDefs[typeName] = t\n		typeCache[typeName] = t\n")),
+    M("det-second-entry-path", "C12", ["DET-3", "ParseBytes"],
+      E("asm/asm.go", "	content := string(b)\n	return ParseString(path, content)", "	tree, err := ast.Parse(path, string(b))\n	if err != nil {\n		return nil, errors.WithStack(err)\n	}\n	return translate(ast.ToLlvmNode(tree.Root()).(*ast.Module))")),
+    M("ord-metadata-by-name-unsorted", ["C12", "C20"], ["DET-1", "WriteTo"],
+      E("ir/module.go", "	natsort.Strings(mdNames)\n", "	_ = natsort.Strings\n")),
+    M("ord-attrgroups-descending", "C20", ["ORD-SORT", "AttrGroupDefs"],
+      E("asm/translate.go", "		return attrGroupIDs[i] < attrGroupIDs[j]", "		return attrGroupIDs[i] > attrGroupIDs[j]")),
+    M("ord-globals-map-order", "C20", ["ORD-SORT", "Globals"],
+      E("asm/translate.go", "	for _, ident := range gen.old.globalOrder {\n		v, ok := gen.new.globals[ident]\n		if !ok {\n			panic(fmt.Errorf(\"unable to locate global identifier %q\", ident.Ident()))\n		}", "	for ident, v := range gen.new.globals {\n		_ = ident")),
+    # ---- C13 / C14: effects --------------------------------------------------------
+    M("race-memoise-in-printer", ["C13", "C14"], ["shared write", "ir.Func", "cachedHeader"],
+      E("ir/func.go", "	// Parent module; field set by ir.Module.NewFunc.\n	Parent *Module", "	// Parent module; field set by ir.Module.NewFunc.\n	Parent *Module\n	cachedHeader string"),
+      E("ir/func.go", "		buf.WriteString(headerString(f))\n		return buf.String()", "		if f.cachedHeader == \"\" {\n			f.cachedHeader = headerString(f)\n		}\n		buf.WriteString(f.cachedHeader)\n		return buf.String()")),
+    M("obs-sort-in-place", ["C13", "C14"], ["shared write", "ir.Module", "Funcs"],
+      E("ir/module.go", "	// Function declarations and definitions.\n	if len(m.Funcs) > 0 && fw.size > 0 {", "	sort.Slice(m.Funcs, func(i, j int) bool { return m.Funcs[i].Name() < m.Funcs[j].Name() })\n	// Function declarations and definitions.\n	if len(m.Funcs) > 0 && fw.size > 0 {"),
+      E("ir/module.go", '	"io"\n', '	"io"\n	"sort"\n')),
+    M("race-unguarded-setid", "C13", ["RACE-2", "AssignIDs"],
+      E("ir/func.go", "			if n.ID() != id {\n				// only write when the ID changes, so that printing an already\n				// numbered value from several goroutines performs no write.\n				n.SetID(id)\n			}", "			n.SetID(id)")),
+    M("race-no-lock", "C13", ["RACE-2", "AssignGlobalIDs"],
+      E("ir/module.go", "func (m *Module) AssignGlobalIDs() error {\n	m.mu.Lock()\n	defer m.mu.Unlock()\n", "func (m *Module) AssignGlobalIDs() error {\n")),
+    M("race-scaffold-without-typ", ["C13", "C14"], ["RACE-3", "newAddInst"],
+      E("asm/inst_binary.go", "	return &ir.InstAdd{LocalIdent: ident, Typ: typ}, nil", "	_ = typ\n	return &ir.InstAdd{LocalIdent: ident}, nil")),
+    M("obs-setname-keeps-id", "C14", ["OBS-5", "LocalIdent"],
+      E("ir/helper.go", "	i.LocalName = name\n	i.LocalID = 0\n", "	i.LocalName = name\n")),
 ]
